@@ -82,6 +82,8 @@ def cases(tier: str, seed: int) -> list[dict]:
         out.append({"kind": kind, "scheme": scheme, "dim": dim, "et": et, "nops": 3, "script": True})
     for kind, scheme, dim, et in CONFIGS:
         out.append({"kind": kind, "scheme": scheme, "dim": dim, "et": et, "nops": 2, "script": "virgin-first"})
+        if kind in ("elastic", "thermal", "phasefield", "hyperelastic"):
+            out.append({"kind": kind, "scheme": scheme, "dim": dim, "et": et, "nops": 1, "script": "disk-then-memory-then-Save"})
         if kind not in ("beam", "weakforms"):
             out.append({"kind": kind, "scheme": scheme, "dim": dim, "et": et, "nops": 2, "script": "mesh-after-return"})
     for kind, scheme, dim, et in CONFIGS:
@@ -362,13 +364,16 @@ def _run(case, ctx, rng, kind, scheme, dim, et, key0, root):
         return "Save_Iter"
 
     def op_folder():
-        live.folder = folders[int(rng.integers(len(folders)))]
+        if isinstance(forced[0], str) and forced[0].startswith("folder:"):
+            live.folder = folders[int(forced[0].split(":")[1])]
+        else:
+            live.folder = folders[int(rng.integers(len(folders)))]
         return "folder="
 
     forced = [None]  # scripted cases choose the iteration themselves
 
     def pick():
-        if forced[0] is not None and forced[0] < len(shadow):
+        if isinstance(forced[0], int) and forced[0] < len(shadow):
             i, forced[0] = forced[0], None
             return shadow[i]
         return shadow[int(rng.integers(len(shadow)))]
@@ -530,12 +535,12 @@ def _run(case, ctx, rng, kind, scheme, dim, et, key0, root):
     def op_save_load():
         S = os.path.join(root, f"S{len(history)}")
         reuse = rng.random() < 0.5
-        own = rng.random() < 0.3
+        own = rng.random() < 0.3 or forced[0] == "own:0"
         with ctx.monitored("no-exception", key0 + "/Save+Load_Simu/raised"):
             if own:
                 # the folder in which this very simulation may already have stored some of its iterations (others being in memory or
                 # in the other scratch folder)
-                S = folders[int(rng.integers(2))]
+                S = folders[0 if forced[0] == "own:0" else int(rng.integers(2))]
                 ctx.event("Save-into-own-iteration-folder")
             elif reuse:
                 # a folder that already holds another simulation (an earlier run of another model saved there): Save replaces it
@@ -629,6 +634,11 @@ def _run(case, ctx, rng, kind, scheme, dim, et, key0, root):
                     # the steady state restored while the transient scheme is in force again: its rates are zero
                     script = [(op_save, None), (op_step, None), (op_save, None), (op_scheme, None), (op_set_iter, 0), (op_step, None), (op_save, None),
                               (op_scheme, None), (op_set_iter, 2), (op_step, None), (op_save, None), (op_set_iter, 2), (op_get, 2)]
+                if case.get("script") == "disk-then-memory-then-Save":
+                    # the first iterations are stored in a folder, the following ones in memory, then the whole simulation is saved into
+                    # that same folder and read back: every iteration is still the one it was
+                    script = [(op_folder, "folder:0"), (op_save, None), (op_step, None), (op_save, None), (op_folder, "folder:2"), (op_step, None), (op_save, None),
+                              (op_step, None), (op_save, None), (op_save_load, "own:0"), (op_get, 0), (op_set_iter, 1), (op_get, 3)]
                 if case.get("script") == "steady-then-transient":
                     # a steady state saved under the stationary algorithm, transient steps saved after it, the steady state restored
                     # while the transient scheme is in force, and back
